@@ -451,6 +451,8 @@ OwnBlockIsProposal(e, j, b) ==
 
 \* C06 (the part visible in every state): the primary is (h - v) mod n
 PrimaryOK(s) == s.started => s.primary = (s.h - s.v) % s.n /\ s.n = Len(s.vals)
+\* N is the length of the validator list the application reported for the height being decided (also after the set shrank or grew)
+ValidatorCount(e) == (e.call \in {"Start", "Reset"} /\ e.post.started) => (e.post.n = e.ledger.nvals /\ e.post.vals = e.ledger.vals)
 
 -----------------------------------------------------------------------------
 \* Conformance: the logged step is one of the outcomes the specification allows
@@ -544,6 +546,7 @@ StepViolations(e, pre, cfg) ==
           \cup P("C05", "EarlyKept", EarlyKept(e, pre))
           \cup ( IF e.call \in {"Start", "Reset"} THEN P("C05", "CleanReset", CleanReset(e, pre)) ELSE {} )
           \cup P("C06", "PrimaryOK", PrimaryOK(e.post))
+          \cup P("C06", "ValidatorCount", ValidatorCount(e))
           \cup P("C07", "BlockAfterPre", BlockAfterPre(e, pre))
           \cup P("C07", "AmevOff", AmevOff(e, pre))
           \cup P("C10", "TimerArmed", TimerArmed(e))
